@@ -17,7 +17,7 @@ from ..namekinds import NameKinds, mentions_separator, textual_tests
 from ..report import Report, key_of
 from ..terms import assume, dag_nodes, has_opaque, pretty
 from .c07 import graph_orientation
-from .common import TRUSTED_BASE, bound_args, cfg_nodes_for, expanded_facts, inl, loop_runs_to_end, loop_unconditional, subst_single_assign, where
+from .common import TRUSTED_BASE, bound_args, cfg_nodes_for, expanded_facts, inl, loop_runs_to_end, loop_unconditional, normal_succ, subst_single_assign, where
 
 
 _CONTROL_SRC = '''
@@ -415,6 +415,16 @@ def run(A, R: Report, thorough: bool):
         ok_edges, why = edge_coverage(A, g)
         R.check(ok_edges, 'R08.1', f'{g.short}: edges', key_of('edges', why), 'one edge per Task-valued input of every task',
                 f'the graph that is checked for cycles does not receive every declared input edge ({why})', where=where(g))
+        # the test sees the complete graph: on every path, the last thing that happens to the graph before the function ends is the test, not an edge
+        cfgg = A.cfg(g)
+        tests_g = [n.id for n in cfgg.nodes.values() if n.kind == 'test' and any(isinstance(x, ast.Call) and src(x.func).endswith('is_directed_acyclic_graph') for x in ast.walk(n.ast))]
+        adds_g = [n.id for n in cfgg.nodes.values() if n.kind == 'stmt' and n.ast is not None and any(
+            isinstance(x, ast.Call) and isinstance(x.func, ast.Attribute) and x.func.attr in ('add_edge', 'add_edges_from', 'add_weighted_edges_from') for x in ast.walk(n.ast))]
+        if tests_g and adds_g:
+            unchecked = cfgg.find_path([v for a_ in adds_g for v in normal_succ(cfgg, a_)], [cfgg.exit.id], avoid=tests_g)
+            R.check(unchecked is None, 'R08.1', f'{g.short}: gate after the last edge', key_of('edge-after-gate', unchecked is None), 'every added edge is followed by the acyclicity test',
+                    'an edge can be added after the last acyclicity test (the test runs before the edge is added): a cycle closed by the last declared input is never seen, and a chain with a cyclic graph is returned',
+                    witness=cfgg.describe_path(unchecked) if unchecked else None, where=where(g))
     n_prep = 0
     for c in chain.all_subclasses():
         f = c.methods.get('_prepare')
